@@ -984,6 +984,7 @@ func TestVerifC54(t *testing.T) {
 	famN := map[string]int{}
 	famT := map[string]time.Duration{}
 	famE := map[string]int{}
+	nSamples := map[string]int{}
 	nPanics := int64(0)
 	runCase := func(family string, reqs []*c54req) {
 		idx++
@@ -997,7 +998,12 @@ func TestVerifC54(t *testing.T) {
 		}
 		before := h.srv.serverStatus.ProxyState.PanicClientConnServe.Get()
 		t0 := time.Now()
-		vs, pan := h.execute(reqs, r.Outcome)
+		var ocs []string
+		vs, pan := h.execute(reqs, func(c string) { ocs = append(ocs, c); r.Outcome(c) })
+		if nSamples[family[:1]] < 1 && r.Mine(0) {
+			nSamples[family[:1]]++
+			r.Sample(map[string]interface{}{"case": id, "outcomes": ocs, "violations": len(vs)})
+		}
 		famN[family[:1]]++
 		famT[family[:1]] += time.Since(t0)
 		if pan != "" {
